@@ -100,7 +100,8 @@ EPS = 1e-12
 PHASES = [0.0, 0.25, 0.5, -0.5, 0.75, 0.1, 0.37]
 FAR = [(4096.25, -4096.25), (1e6 + 0.5, 1e6 + 0.5), (-2e6 + 0.25, 3e6 - 0.25)]
 SIZES = {'quick': [0.75, 2.5, 11.0], 'thorough': [0.75, 2.5, 5.25, 11.0]}
-ANGLES = {'quick': [0.0, 30.0, 123.4], 'thorough': [0.0, 30.0, 45.0, 90.0, 123.4, -60.0]}
+# 90 / 270: exact quarter turns exchange the roles of width and height
+ANGLES = {'quick': [0.0, 30.0, 123.4, 90.0], 'thorough': [0.0, 30.0, 45.0, 90.0, 123.4, -60.0, 270.0]}
 NS = {'quick': [1, 2, 3, 5, 12], 'thorough': list(range(1, 13))}
 BAD_SUBPIXELS = [0, -1, 2.0, '3']
 BAD_MODES = ['centre', 'CENTER', '']
@@ -110,7 +111,7 @@ EXACT_OK = ('circle', 'ellipse')          # classes whose 'exact' mode is implem
 
 
 # ------------------------------------------------------------------ lattice --
-_ANG_REPS = {0.0: ('deg', 'quantity'), 30.0: ('arcmin', 'quantity'), 45.0: ('rad', 'angle'), 90.0: ('arcsec', 'quantity'),
+_ANG_REPS = {270.0: ('deg', 'angle'), 0.0: ('deg', 'quantity'), 30.0: ('arcmin', 'quantity'), 45.0: ('rad', 'angle'), 90.0: ('arcsec', 'quantity'),
              123.4: ('rad', 'quantity'), -60.0: ('arcmin', 'angle')}
 
 
